@@ -235,3 +235,31 @@ Definition ec_all_done (st : ecstate) : bool :=
 
 (* node indexes the parts ended on *)
 Definition ec_placement (st : ecstate) : list (option nat) := map ps_done (ec_parts st).
+
+(* ---- saveObject: EC rules (EC-only policy, node-side encoding) ---------------------- *)
+Definition rule_eqb (a b : nat * nat) : bool := Nat.eqb (fst a) (fst b) && Nat.eqb (snd a) (snd b).
+
+(* order of the applyECRule calls: a rule equal to an earlier one is applied right
+   after the first occurrence (its parts are reused), each on its own node list *)
+Definition ec_call_order (ecr : list (nat * nat)) : list nat :=
+  flat_map (fun e =>
+              let r := nth e ecr (0, 0) in
+              if existsb (rule_eqb r) (firstn e ecr) then []
+              else e :: filter (fun j => rule_eqb r (nth j ecr (0, 0))) (seq (S e) (length ecr - S e)))
+           (seq 0 (length ecr)).
+
+(* one applyECRule call under a schedule *)
+Definition apply_ec (ack : node -> bool) (nodes : list node) (rule : nat * nat) (sched : list nat) : ecstate :=
+  ec_run ack nodes (fst rule) sched (ec_init (fst rule + snd rule) (length nodes)).
+
+(* the calls are made in order until the first one that fails *)
+Fixpoint save_ec (ack : node -> bool) (lists : list (list node)) (ecr : list (nat * nat))
+         (order : list nat) (scheds : list (list nat)) : status * list (nat * ecstate) :=
+  match order with
+  | [] => (Ok, [])
+  | e :: rest =>
+    let st := apply_ec ack (nth e lists []) (nth e ecr (0, 0)) (nth e scheds []) in
+    if ec_all_done st then
+      let '(s, l) := save_ec ack lists ecr rest scheds in (s, (e, st) :: l)
+    else (Failed, [(e, st)])
+  end.
